@@ -13,10 +13,11 @@ ID = "C38"
 LEAN_TARGETS = ["TornadoModel.C38.Props"]
 _T = "TornadoModel.C38."
 THEOREMS = [_T + n for n in [
-    "callback_once_fifo", "callback_all_ran_when_idle", "timeout_not_before_deadline", "add_future_later_iteration",
+    "callback_once_fifo", "callback_all_ran_when_idle", "timeout_not_before_deadline", "removed_never_runs",
+    "add_future_later_iteration",
     "errors_logged", "errors_do_not_stop_loop", "loop_continues", "run_sync_outcomes", "run_sync_result",
     "run_sync_reraises", "run_sync_timeout", "run_sync_never_completing",
-    "invA_step", "invB_step", "invE_step", "invF_step", "reach_inv",
+    "invA_step", "invB_step", "invD_step", "invE_step", "invF_step", "reach_inv",
 ]]
 TRUSTED = [
     "asyncio's event loop as abstracted in C38/Model.lean: FIFO ready queue with per-iteration snapshot, timers moved to "
@@ -38,8 +39,9 @@ CLAUSES = {
     "callbacks each run exactly once, in scheduling order per thread": "callback_once_fifo + callback_all_ran_when_idle "
         "(loop thread and pre-loop scheduling); other threads: tie only (thorough tier, real threads)",
     "timeouts run not before their deadline": "timeout_not_before_deadline",
-    "timeouts run once, in deadline order, never after remove_timeout": "tie only: Spec.whenOrder / removedNeverRuns / "
-        "timerAtMostOnce / timersAccounted evaluated on every observed trace (timeout_order_goal, removed_never_runs_goal)",
+    "timeouts never run after remove_timeout": "removed_never_runs",
+    "timeouts run once, in deadline order": "tie only: Spec.whenOrder / timerAtMostOnce / timersAccounted evaluated on every "
+        "observed trace (timeout_order_goal, timeout_at_most_once_goal, timeout_all_accounted_goal)",
     "exceptions are logged without stopping the loop": "errors_logged + errors_do_not_stop_loop + loop_continues",
     "add_future callbacks always run on a later iteration": "add_future_later_iteration",
     "run_sync returns the result, re-raises, or raises TimeoutError after cancelling": "run_sync_outcomes (+ run_sync_result/_reraises/_timeout/_never_completing)",
